@@ -211,7 +211,9 @@ def check(case, ctx):
     # the scale the z-scores were divided by is the scale estimate itself - the unit-scale fallback is for a ZERO estimate
     # only, however far an outlier lies from the bulk
     if method != "doublemad":
-        sk = np.asarray(scale_of(x, axis, keep=True), dtype=np.float64)
+        # (estimate_zscore works on the single-precision copy of the data: the estimate is taken on the same copy here -
+        #  an ill-conditioned estimator such as diffcov moves by 1e-5 between the float64 and the float32 samples)
+        sk = np.asarray(scale_of(x.astype(np.float32), axis, keep=True), dtype=np.float64)
         zsc = np.asarray(zx.scale, dtype=np.float64)
         try:
             skb, zscb = np.broadcast_to(sk, x.shape), np.broadcast_to(zsc, x.shape)
